@@ -3134,7 +3134,7 @@ static struct jbl_node* _jbl_merge_patch_node(
                 _jbl_copy_node_data(node, src);
               }
             } else {
-              if (node->type == JBV_STR) {
+              if (node->type == JBV_STR && patch->type != JBV_OBJECT) { // for an object patch the callee frees it
                 free((void*) node->vptr);
               }
               struct jbl_node *src = _jbl_merge_patch_node(node, patch, 0, rcp);
